@@ -5,7 +5,7 @@ from oracle_util import *  # noqa
 from protocol import from_real
 
 ID = "C07"
-LEAN_MODULE = ["SCoda.Props.C07", "SCoda.Props.Gaps"]
+LEAN_MODULE = ["SCoda.Props.C07", "SCoda.Props.Gaps", "SCoda.Props.RelTie2", "SCoda.Props.WrapTie"]
 LEVEL = "proof"
 CLAUSES = [
     ("output is well-formed for every input (alternation, starts with on, ends with off)", ["SCoda.C07.wf_out"]),
@@ -15,6 +15,13 @@ CLAUSES = [
     ("sounding set unchanged on paired input (overlaps fused); every kept event is an input event at its original tick; other events all kept",
      ["SCoda.C07.sound_eq", "SCoda.C07.events_sublist", "SCoda.C07.others_kept"]),
     ("normalising twice changes nothing observable", ["SCoda.C07.idempotent"]),
+    ("TIE BY TRANSLATION: RelativeSequence.normalise_relative is re-translated statement by statement on every run (Gen/RelFns2.lean: dict-of-dict-of-list state as "
+     "insertion-ordered association lists, message OBJECTS as (identity, value) pairs because the final clean-up uses `in` / `remove`, which are identity on Message) and "
+     "proved equal to the model `normalise` the clauses above are about, for every input whose message objects are distinct and whose channels are not None; the call "
+     "never raises, for any objects; with an object occurring twice the equality is refuted — that is known finding D24c; Sequence.normalise itself is the translated "
+     "wrapper method",
+     ["SCoda.RelTie2.normaliseRelative_eq", "SCoda.RelTie2.normaliseRelative_total", "SCoda.RelTie2.normaliseRelative_anyObjects_statement_false",
+      "SCoda.RelTie2.normaliseRelative_anyChannel_statement_false", "SCoda.WrapTie.normalise_eq"]),
 ]
 RULE = ("random relative sequences of <=12 (quick) / <=16 (thorough) messages over 2 channels and pitches {0,1,60,61} "
         "(pitches 0/1 collide with channel numbers), ill-formed on purpose, plus well-formed multi-channel sequences; "
@@ -43,7 +50,19 @@ def run_normalise(rel):
 
 def o_normalise(inp):
     rel = [tuple(m) for m in inp["rel"]]
-    if inp.get("prelude") is not None:
+    if inp.get("aliased_parts"):
+        # R.concatenate([P, Q, P]): the message objects of P occur twice in R (known finding D24c)
+        parts = [[tuple(m) for m in p] for p in inp["aliased_parts"]]
+        objs = [P.seq_of_rel(p) for p in parts]
+        s = P.Sequence()
+        s.concatenate([objs[i] for i in inp["order"]])
+        rel = [m for i in inp["order"] for m in parts[i]]
+        try:
+            s.normalise()
+        except Exception as e:
+            return [("raises", f"{type(e).__name__}: {e}")]
+        out = P.content_of(s)
+    elif inp.get("prelude") is not None:
         # the same Sequence object has a past (e.g. it was normalised before and edited since): judged against its content now
         s, rel = P.seq_after_prelude(rel, inp.get("state", "rel"), inp["prelude"])
         try:
@@ -82,12 +101,20 @@ def o_normalise(inp):
     return fails
 
 
+D24C_EXAMPLE = {"rel": [], "aliased_parts": [[G.pm(ON, 0, None, note=60, vel=64)], [G.pm(WAIT, 0, 4), G.pm(OFF, 0, None, note=60)]], "order": [0, 1, 0]}
+
+
 def setup(ctx):
     ctx.oracle("normalise", o_normalise)
+
+    def kf_d24c(f):
+        return bool(f["input"].get("aliased_parts")) and len(set(f["input"]["order"])) < len(f["input"]["order"])
+    ctx.kf_predicates["D24c"] = kf_d24c
 
 
 def generate(ctx):
     rng = ctx.rng
+    ctx.check("normalise", D24C_EXAMPLE)        # the recorded instance of the known finding
     for i in range(ctx.n(400, 12000)):
         if i % 3 == 2:
             rel, _ = G.gen_wf_rel(rng, allow_overlap=(i % 2 == 0))
